@@ -16,6 +16,7 @@ import (
 
 	"verif/harness/internal/gen/fontgen"
 	"verif/harness/internal/mon"
+	"verif/harness/internal/ref/cmapref"
 )
 
 // C15: end-to-end layout: cmap, feature selection, widths and kerning compose right.
@@ -148,6 +149,48 @@ func checkSelectionOf(k *mon.Case, queried, info *gtab.Info, lang language.Tag, 
 	}
 	k.Evals(200)
 	return got
+}
+
+// c15arrayFormat4 writes a format 4 subtable in which every segment reads the
+// glyph index array and adds a non-zero idDelta; codes without a glyph inside
+// a segment have the array entry 0.
+func c15arrayFormat4(m map[uint16]uint16) ([]byte, bool) {
+	var codes []int
+	used := map[uint16]bool{}
+	for c, g := range m {
+		if g != 0 && c != 0xFFFF {
+			codes = append(codes, int(c))
+			used[g] = true
+		}
+	}
+	if len(codes) == 0 {
+		return nil, false
+	}
+	sort.Ints(codes)
+	delta := uint16(0x4001)
+	for used[delta] { // an entry of 0 means "no glyph": no glyph id may equal the delta
+		delta += 7
+	}
+	f := &cmapref.Format4{}
+	for i := 0; i < len(codes); {
+		j := i + 1
+		for j < len(codes) && codes[j]-codes[j-1] <= 4 {
+			j++
+		}
+		sg := cmapref.Seg4{Start: uint16(codes[i]), End: uint16(codes[j-1]), Delta: delta, Slot: len(f.Glyphs)}
+		for c := codes[i]; c <= codes[j-1]; c++ {
+			if g := m[uint16(c)]; g != 0 {
+				f.Glyphs = append(f.Glyphs, g-delta)
+			} else {
+				f.Glyphs = append(f.Glyphs, 0)
+			}
+		}
+		f.Segs = append(f.Segs, sg)
+		i = j
+	}
+	f.Segs = append(f.Segs, cmapref.Seg4{Start: 0xFFFF, End: 0xFFFF, Delta: 1, Slot: -1})
+	data, err := f.Encode()
+	return data, err == nil
 }
 
 func copySeq(s []glyph.Info) []glyph.Info {
@@ -494,6 +537,25 @@ func runC15(c *mon.Ctx) {
 		r := k.Rng
 		f, info := fontgen.Font(r, fontgen.Opts{MinGlyphs: 4, MaxGlyphs: 30, Layout: "subset", Plain: true, CMap: []string{"4", "12", "both", "mac"}[r.IntN(4)]})
 		k.Class("layout:cmap=" + info.CMap)
+		if info.CMap == "4" && k.Index/4%2 == 1 && f.CMapTable != nil {
+			// the same mapping as other font tools write it: segments that
+			// go through the glyph index array with a non-zero idDelta,
+			// neighbouring runs joined by entries of 0 ("no glyph")
+			m := map[uint16]uint16{}
+			inBMP := true
+			for cde, g := range info.CodeToGID {
+				if cde > 0xFFFF {
+					inBMP = false
+				}
+				m[uint16(cde)] = uint16(g)
+			}
+			if data, ok := c15arrayFormat4(m); ok && inBMP {
+				for key := range f.CMapTable {
+					f.CMapTable[key] = data
+				}
+				k.Class("layout:cmap=4-glyph-array-with-delta")
+			}
+		}
 		if k.Index%4 == 3 {
 			f = readBack(k, f)
 		}
@@ -548,6 +610,15 @@ func runC15(c *mon.Ctx) {
 			switch r.IntN(5) {
 			case 0:
 				s = append(s, rune(0x2460+r.IntN(20))) // most likely unmapped
+				if r.IntN(2) == 0 {
+					// an unmapped neighbour of a mapped character (inside or
+					// next to a segment of the character map)
+					c := mapped[r.IntN(len(mapped))] + rune(1+r.IntN(2))
+					if _, isMapped := info.CodeToGID[c]; !isMapped && c <= 0xFFFF {
+						s[len(s)-1] = c
+						k.Class("layout:unmapped-neighbour-of-a-mapped-character")
+					}
+				}
 			default:
 				s = append(s, mapped[r.IntN(len(mapped))])
 			}
@@ -994,7 +1065,7 @@ func runC15(c *mon.Ctx) {
 		"kern-first-subtable:minimum", "kern-first-subtable:override", "kern-first-subtable:minimum-raises-implicit-0", "kern-first-subtable:minimum-below-implicit-0",
 		"kern-value:int16-extreme", "kern-value:large", "kern:accumulation-leaves-int16", "kern:zero-for-a-pair-with-a-value:override", "kern:zero-for-a-pair-with-a-value:minimum",
 		"select:lookup-index-out-of-range", "select:optional-feature-index-out-of-range", "select:required-feature-index-out-of-range", "layout:gdef-marks", "layout:history-compared", "layout:second-layouter-flipped-switches", "fixed-pitch=true", "fixed-pitch=false",
-		"features:all-off", "features:explicit", "features:nil-defaults", "layout:cmap=mac", "layout:cmap=12", "layout:ligature-ignores-marks", "select:read-back,>=2-systems"}
+		"features:all-off", "features:explicit", "features:nil-defaults", "layout:cmap=mac", "layout:cmap=12", "layout:cmap=4-glyph-array-with-delta", "layout:unmapped-neighbour-of-a-mapped-character", "layout:ligature-ignores-marks", "select:read-back,>=2-systems"}
 	for s := 0; s < 32; s++ {
 		req = append(req, fmt.Sprintf("ligature-subset=%d", s))
 	}
